@@ -228,6 +228,20 @@ fn tiny_cases(tier: Tier) -> Vec<Case> {
         engine.condition.set_volume(-6200.0);
         out.push(Case { name: format!("{} labels=2 cond=volume=-6200", cfg.describe()), engine, labels: corpus[41..43].to_vec() });
     }
+    // settings that are not numbers: a pitch shift of NaN (every voiced frame then has no usable pitch - whatever that is
+    // rendered as, it is rendered the same step by step and in one go), and a NaN volume
+    {
+        let cfg = GenCfg { nstate: 1, fperiod: 4, wset: 1, ..GenCfg::default() };
+        let mut engine = engine_from_bytes(&cfg.bytes()).expect("generated voice");
+        engine.condition.set_additional_half_tone(f64::NAN);
+        engine.condition.set_msd_threshold(1, 0.0);
+        out.push(Case { name: format!("{} labels=2 cond=half_tone=NaN,threshold=0", cfg.describe()), engine, labels: corpus[41..43].to_vec() });
+        let cfg = GenCfg { nstate: 1, fperiod: 4, ns: 2, stage: 2, order: 4, wset: 0, ..GenCfg::default() };
+        let mut engine = engine_from_bytes(&cfg.bytes()).expect("generated voice");
+        engine.condition.set_additional_half_tone(f64::INFINITY);
+        engine.condition.set_volume(f64::NAN);
+        out.push(Case { name: format!("{} labels=2 cond=half_tone=inf,volume=NaN", cfg.describe()), engine, labels: corpus[41..43].to_vec() });
+    }
     if tier == Tier::Thorough {
         let cfg = GenCfg { nstate: 3, fperiod: 2, ns: 2, gv: true, ..GenCfg::default() };
         let mut engine = engine_from_bytes(&cfg.bytes()).unwrap();
@@ -240,7 +254,7 @@ fn tiny_cases(tier: Tier) -> Vec<Case> {
 pub fn run(tier: Tier) -> i32 {
     let rep: &'static Report = Box::leak(Box::new(Report::new("C02", tier, "model_checking")));
     let monitor = std::sync::Arc::new(HangMonitor::start(rep, "C02 generator history"));
-    rep.set_rule("HIST (stateright BFS): all call histories over {generate_step with buffer fp, fp+1, 2fp, 3fp; synthesized_frames; generate_all (terminal); on generators of at most 3 frames also: hand the generator to a freshly spawned thread, once per history} up to depth N+3 on real generators of N = 0..5 frames (tiny generated voices, both filter families, 2 and 3 streams, frame periods 1 and 4); every transition rebuilds a fresh generator and replays the history; no state merging; half of the engines with the postfilter on (beta 0.3-0.5), volume and half tone set; plus on V0 (beta 0.3): constant and cycling buffer sizes to exhaustion and generate_all after exactly k steps for every k, every other one also with a hand-over to a new thread before the first call and half-way; plus one utterance of > 4200 frames: generate_all after k steps for k around every power of two, and stepping to exhaustion; non-trivial = history contains at least one step or finish");
+    rep.set_rule("HIST (stateright BFS): all call histories over {generate_step with buffer fp, fp+1, 2fp, 3fp; synthesized_frames; generate_all (terminal); on generators of at most 3 frames also: hand the generator to a freshly spawned thread, once per history} up to depth N+3 on real generators of N = 0..5 frames (tiny generated voices, both filter families, 2 and 3 streams, frame periods 1 and 4); every transition rebuilds a fresh generator and replays the history; no state merging; half of the engines with the postfilter on (beta 0.3-0.5), volume and half tone set; one with a NaN pitch shift, one with an infinite pitch shift and a NaN volume; plus on V0 (beta 0.3): constant and cycling buffer sizes to exhaustion and generate_all after exactly k steps for every k, every other one also with a hand-over to a new thread before the first call and half-way; plus one utterance of > 4200 frames: generate_all after k steps for k around every power of two, and stepping to exhaustion; non-trivial = history contains at least one step or finish");
     rep.assume("buffers no larger than 3 x fperiod; what a step does to buffer samples beyond the first fperiod is not constrained");
     let total_states = AtomicU64::new(0);
     let case_no = AtomicU64::new(0);
@@ -429,6 +443,7 @@ pub fn run(tier: Tier) -> i32 {
             }
         }
     }
+    unwritable_stderr_part(rep, &["finish-after-steps"]);
     rep.guard(total_states > 500, "too few states");
     rep.finish_ref()
 }
